@@ -910,10 +910,10 @@ def m_c18(ctx, st):
 
 def m_c19(ctx, st):
     op = st["op"]
-    if op["t"] != "exec" or op["sender"] in ctx.hostiles:
+    if op["t"] != "exec":
         return
     k = op["msg"]["k"]
-    a = op["sender"]
+    a = op["sender"]          # user account or contract (a contract forwards the coins attached to the callback)
     wp, wq = wallets(st["pre"]), wallets(st["post"])
     d = cdiff(wq.get(a, Counter()), wp.get(a, Counter()))
     if st["outcome"] != "ok":
